@@ -53,6 +53,16 @@ def generate(ctx):
         L = rng.choice([0, 1, 2, 3, 4, 6, 30, 31, 299, 300])
         alpha = rng.choice(["ACGT", gen.IUPAC, gen.IUPAC + "acgtn-?X"])
         cs.append(tr(next(n), gen.rand_seq(rng, L, alpha).encode(), rng.random() < 0.5, "translate-random"))
+    # a sequence that translates for a while and THEN holds a codon with no single product (strict: refused; lenient: X), followed by
+    # ordinary calls: a refused call leaves nothing behind for the next (the op repeats each call and translates a probe after it)
+    import random
+    wr = random.Random(1717 + ctx.seed)
+    for k in range(12 if ctx.tier == "quick" else 100):
+        pre = "".join(wr.choice("ACGT") for _ in range(3 * wr.randint(1, 6)))
+        bad = wr.choice(["NNN", "ATN", "RAY", "NAT", "ANA", "A-A", "TNN"])
+        post = "".join(wr.choice("ACGT") for _ in range(3 * wr.randint(0, 3)))
+        cs.append(tr(next(n), (pre + bad + post).encode(), k % 3 != 2, "translate-refused-late"))
+        cs.append(tr(next(n), pre.encode(), wr.random() < 0.5, "translate-after-refusal"))
     for ch in gen.SYMS32:                 # every accepted character, every form
         for rev in (False, True):
             cs.append(comp(next(n), ch.encode(), rev, "complement-symbol"))
